@@ -457,6 +457,11 @@ func (w *Writer) ReadFrom(src io.Reader) (n int64, err error) {
 		w.n += nn
 		n += int64(nn)
 	}
+	if n > 0 {
+		// Some bytes were accepted (and maybe already sent as a fragment):
+		// the message is started even if src failed later.
+		w.dirty = true
+	}
 	if err == io.EOF {
 		// NOTE: Do not flush preemptively.
 		// See the Write() sources for more info.
